@@ -11,6 +11,7 @@ import PicoVerif.Model.Lexer
 import PicoVerif.Model.Writers
 import PicoVerif.Spec.LuaLex
 import PicoVerif.Model.PicoGrammar
+import PicoVerif.Model.AstWriters
 /-! Line-protocol driver over the executable models (compiled; must not import Mathlib).
 One request per line: `op arg arg ...`; one response line per request.
 Byte strings travel as lower-case hex (`-` = empty). -/
@@ -357,6 +358,20 @@ def handle (st : St) (line : String) : St × String :=
       match Lex.lex l with
       | .ok ts => parseToks ts
       | .error e => showErr e
+  | ["luafmt", w, cs] =>
+    match w.toNat?, parseChunks cs with
+    | some w, some l => match Lex.lex l with
+      | .ok ts => showEx (Ast.luafmt w ts)
+      | .error e => showErr e
+    | _, _ => "bad-op"
+  | ["astecho", cs] => (parseChunks cs).elim "bad-op" fun l =>
+      match Lex.lex l with
+      | .ok ts => showEx (Ast.astEcho ts)
+      | .error e => showErr e
+  | ["normrun", w, d, st, en, h] =>
+    match w.toNat?, d.toNat?, parseHex h with
+    | some w, some d, some r => "ok " ++ showHex (Ast.normRun w d (st == "1") (en == "1") r)
+    | _, _, _ => "bad-op"
   | ["speclex", h] => (parseHex h).elim "bad-op" fun d =>
       match Spec.Lex.lexSource d with
       | some ts => showToks (.ok ts)
